@@ -1725,7 +1725,10 @@ mod c03 {
                 }
                 if eb == b { cx.rep.hit("canonical re-encode identical") }
             } else if canonical(kind, b, &m) {
+                // the property: every canonical encoding the decoder accepts re-encodes to the same bytes
+                let class = unrepresentable(&m).unwrap_or("other");
                 cx.rep.hit(&format!("decoded model not re-encodable: {}", &em[..em.len().min(60)]));
+                cx.rep.spec_fail(&format!("C03:canonical-not-reencodable:{class}"), &format!("a canonical encoding is accepted by the decoder but the decoded model is rejected by the encoder ({})", &em[..em.len().min(90)]), json!({"kind": kind, "bytes": super::short_hex(b), "line": format!("dec {kind} {}", hex(b))}));
             }
         }
     }
@@ -1870,6 +1873,61 @@ fn probes_c03(cx: &mut Ctx) {
         m.pay = Pay::Scmp(ScmpMessageUnknown::new(t, 3, rng.bytes(12)).into());
         model_case(cx, "probe", &m);
     }
+    // the header at its limits: HdrLen 255 (1020 bytes) accepted, 1024 rejected; a 63-hop segment; exactly 64 hop
+    // fields with the current hop field 63; the same one hop field longer
+    {
+        let mk = |rng: &mut Rng, lens: &[usize], ci: u8, ch: u8| {
+            let mut segments = ArrayVec::<[Segment; 3]>::new();
+            for n in lens {
+                let mut hf = TinyVec::<[HopField; 12]>::new();
+                for _ in 0..*n { hf.push(HopField { flags: Default::default(), expiration_units: rng.next() as u8, cons_ingress: rng.next() as u16, cons_egress: rng.next() as u16, mac: sciparse::dataplane_path::standard::types::HopFieldMac(rng.bytes(6).try_into().unwrap()) }) }
+                segments.push(Segment { info_field: InfoField { flags: Default::default(), segment_id: rng.next() as u16, timestamp: rng.next() as u32 }, hop_fields: hf });
+            }
+            DpPath::Standard(StandardPath { current_info_field: ci, current_hop_field: ch, segments })
+        };
+        for n in [980usize, 984, 988, 1000] {
+            let mut m = base(&mut rng);
+            m.header.path = DpPath::Unsupported { path_type: PathType::from(5), data: rng.bytes(n) };
+            model_case(cx, "probe-limits", &m);
+        }
+        for (lens, ci, ch) in [(vec![63usize], 0u8, 62u8), (vec![63, 1], 1, 63), (vec![62, 1, 1], 2, 63), (vec![32, 32], 1, 63), (vec![63, 2], 1, 63), (vec![22, 21, 21], 2, 63), (vec![1, 63], 1, 1), (vec![1, 1, 62], 2, 63)] {
+            let mut m = base(&mut rng);
+            m.header.path = mk(&mut rng, &lens, ci, ch);
+            model_case(cx, "probe-limits", &m);
+            // the same with 16-byte addresses
+            m.header.address.dst_host_addr = WireHostAddr::V6(std::net::Ipv6Addr::from(rng.next() as u128));
+            m.header.address.src_host_addr = WireHostAddr::V6(std::net::Ipv6Addr::from(rng.next() as u128));
+            model_case(cx, "probe-limits", &m);
+        }
+    }
+    // (open) a canonical packet whose standard path has 65 hop fields (32 + 33; header 36 + 4 + 16 + 780 = 836 bytes)
+    // is accepted by the decoder, but its model cannot be re-encoded since b07ca50 (more than 64 hop fields)
+    {
+        let mk = |rng: &mut Rng, lens: &[usize]| {
+            let mut segments = ArrayVec::<[Segment; 3]>::new();
+            for n in lens {
+                let mut hf = TinyVec::<[HopField; 12]>::new();
+                for _ in 0..*n { hf.push(HopField::empty()) }
+                segments.push(Segment { info_field: InfoField { flags: Default::default(), segment_id: rng.next() as u16, timestamp: 5 }, hop_fields: hf });
+            }
+            DpPath::Standard(StandardPath { current_info_field: 0, current_hop_field: 3, segments })
+        };
+        let mut m = base(&mut rng);
+        m.header.common.next_header = sciparse::payload::ProtocolNumber::Other(253);
+        m.header.path = mk(&mut rng, &[32, 32]);
+        m.pay = Pay::Raw(vec![1, 2, 3, 4]);
+        if let (_, Some(mut b)) = impl_encode(&m) {
+            let hs = b[5] as usize * 4;
+            let po = 36;
+            let meta = u32::from_be_bytes([b[po], b[po + 1], b[po + 2], b[po + 3]]) + (1 << 6);
+            b[po..po + 4].copy_from_slice(&meta.to_be_bytes());
+            let tail = b.split_off(hs);
+            b.extend_from_slice(&[0u8; 12]);
+            b.extend_from_slice(&tail);
+            b[5] += 3;
+            bytes_case(cx, "probe", "raw", &b);
+        }
+    }
     // (fixed, 700dda7) enum values that alias another value on the wire: ProtocolNumber::Other(assigned),
     // ScmpDestinationUnreachableCode::Unassigned(0..=6), ScmpParameterProblemCode::Unassigned(assigned)
     {
@@ -1919,6 +1977,13 @@ fn run_c03(cx: &mut Ctx, args: &Args) {
                 if round % 2 == 0 { m.header.path = sciparse::dataplane_path::model::DpPath::Empty }
                 model_case(cx, "boundary-payload", &m);
             }
+        }
+    }
+    // payload sizes between the MTU range and the 16-bit limits
+    for &n in &[1401usize, 4096, 9000, 32767, 32768, 65000] {
+        for _ in 0..args.scale(3, 12) {
+            let m = gen_model(&mut rng, false, &[n]);
+            model_case(cx, "mid-payload", &m);
         }
     }
     // decoder: encodings, mutated encodings, truncations, trailing bytes
